@@ -70,9 +70,17 @@ def _materialise(ws, c, text, files):
     for name, content in (('data/f1.txt', 'f1\n'), ('data/f2.txt', 'f2\n'), (render.SRC_NAME, 'source text\n')):
         if name not in files:
             ws.write(name, content, subst=False)
-    p = ws.write(render.EXE_NAME, '#!/bin/sh\nexec {PY} {PROBE} "$@"\n')
-    os.chmod(p, 0o755)
-    ws.write(render.PCOPY_NAME, "import sys\nexec(compile(open('{PROBE}').read(), '{PROBE}', 'exec'))\n")
+    act_homes = [''] + ([c['act_home'] + '/'] if c.get('act_home') else [])
+    for d in act_homes:
+        p = ws.write(d + render.EXE_NAME, '#!/bin/sh\nexec {PY} {PROBE} "$@"\n')
+        os.chmod(p, 0o755)
+        ws.write(d + render.PCOPY_NAME, "import sys\nexec(compile(open('{PROBE}').read(), '{PROBE}', 'exec'))\n")
+    if c.get('act_home'):
+        # a separate act-home directory: same files, the data files marked
+        d = c['act_home'] + '/'
+        ws.write(d + render.SRC_NAME, 'source text\n', subst=False)
+        for name in ('data/f1.txt', 'data/f2.txt'):
+            ws.write(d + name, model.ACT_HOME_MARK + c['files'][name], subst=False)
     for pid, cfg in c['probes'].items():
         ws.probe_cfg(pid, **cfg)
 
@@ -163,6 +171,8 @@ def _labels(c, exp):
         labels.append('actor:%s:%s' % (act['k'], act['variant']))
         labels.append('interpreter:%s' % act.get('interp'))
         labels.append('actor-configured-via:%s' % act.get('via', 'conf'))
+    if c.get('act_home'):
+        labels.append('conf:act-home-is-not-home')
     if c.get('setup_stdin'):
         ts_labels(c['setup_stdin'], 'stdin=')
     for ph in model.PHASES:
@@ -476,11 +486,11 @@ def _render(case):
 SUBS = [
     Sub('exit_codes', check_exit, enumerate=gen.exit_cases, exhaustive=True),
     Sub('act_command_line', check, strategy=lambda tier: gen.act_command_case(),
-        budget={'quick': 800, 'thorough': 30000}, render=_render),
+        budget={'quick': 800, 'thorough': 24000}, render=_render),
     Sub('act_interpreters', check, strategy=lambda tier: gen.interpreter_case(),
-        budget={'quick': 350, 'thorough': 12000}, render=_render),
+        budget={'quick': 350, 'thorough': 9000}, render=_render),
     Sub('instructions', check, strategy=lambda tier: gen.instruction_case(),
-        budget={'quick': 700, 'thorough': 30000}, render=_render),
+        budget={'quick': 700, 'thorough': 24000}, render=_render),
     Sub('shell_lines', check, strategy=lambda tier: gen.shell_case(),
-        budget={'quick': 350, 'thorough': 14000}, render=_render),
+        budget={'quick': 350, 'thorough': 10000}, render=_render),
 ]
